@@ -305,3 +305,35 @@ Fixpoint bmismatches_from (i : nat) (cs : list bcase) : list nat :=
   | c :: cs' => if check_bcase c then bmismatches_from (S i) cs' else i :: bmismatches_from (S i) cs'
   end.
 Definition bmismatches := bmismatches_from 0.
+
+(* ---- completion correspondence ---- *)
+From GO Require Import Model.Complete.
+
+Record ccase := mkCCase {
+  cc_md : mode; cc_lower : bool; cc_specs : list ospec; cc_root : node; cc_st0 : list ostate;
+  cc_ftab : list (str * option N);
+  cc_zsh : bool;                 (* ZSHELL set *)
+  cc_line : str;                 (* COMP_LINE *)
+  cc_args : list str;            (* the arguments given to Parse (bash: command, current word, previous word) *)
+  cc_stdout : str;               (* bytes on the completion writer *)
+  cc_stderr : str;               (* bytes on Writer *)
+  cc_exits : list nat;           (* codes passed to the exit function *)
+  cc_fns : nat                   (* user CommandFn invocations (must be 0) *)
+}.
+
+Definition run_ccase (c : ccase) : cresult :=
+  complete (pf_of (cc_ftab c)) (cc_md c) (cc_lower c) (cc_specs c) fam_vfn fam_afn
+           (if cc_zsh c then Zsh else Bash) (cc_root c) (cc_st0 c) (comp_words (cc_line c) (cc_args c)).
+
+Definition check_ccase (c : ccase) : bool :=
+  let r := run_ccase c in
+  str_eqb (comp_stdout r) (cc_stdout c) && str_eqb (comp_stderr r) (cc_stderr c) &&
+  list_eqb Nat.eqb (cc_exits c) [124%nat] && Nat.eqb (cc_fns c) 0 &&
+  Nat.eqb (List.length (cc_st0 c)) (List.length (cc_specs c)) && wf_nodeb 64 (List.length (cc_specs c)) (cc_root c).
+
+Fixpoint cmismatches_from (i : nat) (cs : list ccase) : list nat :=
+  match cs with
+  | [] => []
+  | c :: cs' => if check_ccase c then cmismatches_from (S i) cs' else i :: cmismatches_from (S i) cs'
+  end.
+Definition cmismatches := cmismatches_from 0.
